@@ -26,6 +26,7 @@
 #include <netinet/tcp.h>
 #include <poll.h>
 #include <set>
+#include <thread>
 #include <sys/epoll.h>
 #include <sys/eventfd.h>
 #include <sys/sendfile.h>
@@ -155,6 +156,26 @@ int pthread_create(pthread_t* th, const pthread_attr_t* attr, void* (*fn)(void*)
         return fnreal(th, attr, fn, arg);
     auto* t = new sim::Tramp { fn, arg, ng_reserve() };
     return fnreal(th, attr, sim::tramp, t);
+}
+
+// threads marked "fine" (harness threads that call into pistache, e.g. a request-issuing thread) also park before
+// every mutex acquisition, so that the controller can interleave event-loop steps between their critical sections
+extern "C" int __pthread_mutex_lock(pthread_mutex_t*);
+int pthread_mutex_lock(pthread_mutex_t* m)
+{
+    static int (*fn)(pthread_mutex_t*) = nullptr;
+    if (!fn)
+    {
+        fn = __pthread_mutex_lock; // (dlsym itself may take locks: resolve lazily and fall back to the alias)
+        auto r = sim::real<int (*)(pthread_mutex_t*)>("pthread_mutex_lock");
+        if (r)
+            fn = r;
+    }
+    // fine threads park before every acquisition; any gated thread parks when the mutex is held (only one gated
+    // thread runs at a time, so the holder is a parked thread: running on would block the gate itself)
+    if (ng_active() && ng_self() >= 0 && (ng_is_fine() || !ng_mutex_free(m)))
+        ng_park_at(1, m);
+    return fn(m);
 }
 
 int epoll_wait(int epfd, struct epoll_event* evs, int maxev, int timeout)
@@ -395,6 +416,10 @@ namespace sim
         TsanIgnore ign;
         if (ng_has_exited(a) || !ng_is_parked(a))
             return false;
+        if (ng_kind(a) == 1)
+            return ng_mutex_free(ng_addr(a)) != 0;
+        if (ng_kind(a) == 2)
+            return true;
         struct pollfd p;
         p.fd      = ng_epfd(a);
         p.events  = POLLIN;
@@ -491,6 +516,19 @@ namespace sim
                 epoll_event ev = kv.second;
                 ctl(kv.first.first, EPOLL_CTL_MOD, fd, &ev);
             }
+    }
+
+    // start a harness thread that is gated like pistache's own threads and additionally parks at every mutex
+    // acquisition; it first parks at its start, so the controller decides when it begins. Returns its actor id.
+    inline int spawn_fine(std::thread& out, std::function<void()> body)
+    {
+        int id = ng_count(); // the id the interposed pthread_create is about to reserve
+        out    = std::thread([body]() {
+            ng_park_at(2, nullptr);
+            body();
+        });
+        ng_set_fine(id, 1);
+        return id;
     }
 
     inline std::vector<int> list_fds()
